@@ -39,7 +39,7 @@ ASSUMPTIONS = [
 TRUSTED = ['exact rational recomputation in pbt/props/c06.py',
            'pbt/cellsim.py', 'pbt/mastersim.py (reference assignment matcher)',
            'pbt/fakezk.py']
-BUDGET = {'quick': 16000, 'thorough': 480000}
+BUDGET = {'quick': 16000, 'thorough': 320000}
 
 UNPLACED = sys.maxsize
 
